@@ -25,6 +25,8 @@ def place_demo(wt, demo_path):
         body = open(target).read()
         idx = body.rstrip().rfind("}")
         self_contained = any(l.startswith("mod ") or l.startswith("#[cfg(test)]") for l in src.splitlines())
+        if re.search(r"inside|before the final", head):
+            self_contained = False
         if self_contained:
             new = body + "\n" + src + "\n"
         else:
